@@ -230,6 +230,11 @@ func c16Judge(cs *mkClientSide, ss *mkServerSide, tapIdleFor time.Duration) (sym
 		symptoms = append(symptoms, "c2s-wrong-bytes")
 	}
 	if ss == nil {
+		if p.Mode == mkModeClientAbort {
+			// the client may abort before its first write (the tunnel header) is flushed: a
+			// destination connection that sees EOF before any data is then legitimate
+			return symptoms, ""
+		}
 		symptoms = append(symptoms, "server-never-saw-tunnel")
 		return symptoms, ""
 	}
@@ -350,8 +355,18 @@ func c16RunScenario(t testing.TB, r *verifkit.R, phase string, ci int, rng *veri
 	dest.mu.Lock()
 	bogus := append([]string(nil), dest.bogus...)
 	dest.mu.Unlock()
+	abortedEarly := 0 // client-abort tunnels whose header never reached the destination
+	for _, cs := range results {
+		if cs.Plan.Mode == mkModeClientAbort && cs.DialErr == "" && dest.side(cs.Plan.ID) == nil {
+			abortedEarly++
+		}
+	}
 	for _, b := range bogus {
 		if len(b) >= 7 && b[:7] == "err=EOF" {
+			if abortedEarly > 0 {
+				abortedEarly--
+				continue
+			}
 			symptomSet["destination-conn-without-data"] = append(symptomSet["destination-conn-without-data"], b)
 		} else {
 			symptomSet["destination-got-foreign-bytes"] = append(symptomSet["destination-got-foreign-bytes"], b)
